@@ -520,7 +520,7 @@ func c07One(c *config, u *universe, et types.Type, elem *tyTree, as types.AddrSp
 		o.Sample(map[string]interface{}{"elem": et.String(), "src": srcT.String(), "indices": fenc, "llvm": wantS, "inst": instRes, "expr": exprRes, "parser": parseRes})
 	}
 	// oracle: consistent and correct
-	cls := c07Class(baseSc, forms, true)
+	cls := ""
 	det := map[string]interface{}{"elem": et.String(), "src": srcT.String(), "indices": fenc, "llvm": wantS, "inst": instRes, "expr": exprRes, "parser": parseRes}
 	if !wantOk {
 		// LLVM rejects: nothing to compare with; the library may panic or compute something
@@ -537,6 +537,22 @@ func c07One(c *config, u *universe, et types.Type, elem *tyTree, as types.AddrSp
 		bad = "parser differs from LLVM's rule"
 	}
 	if bad != "" {
+		// the listed findings concern particular computations: KF-07/KF-23 the instruction constructor and
+		// the parser (the expression constructor is right there), KF-09 the parser only, KF-08 all of them
+		cls = c07Class(baseSc, forms, true)
+		exprWrong := allConst && exprRes != wantS
+		if (cls == "zeroinit_vector_index" || cls == "undef_vector_index") && exprWrong {
+			cls = ""
+			for _, f := range forms {
+				// a constant-expression index of vector shape is also mis-sized by the expression constructor (KF-23)
+				if f.kind == "expr" && f.vecLen > 0 {
+					cls = "undef_vector_index"
+				}
+			}
+		}
+		if cls == "constexpr_index" && (instRes != wantS || exprWrong) {
+			cls = ""
+		}
 		o.Fail("gep_type", cls, bad, det)
 	} else {
 		o.Pass("gep_type")
